@@ -246,3 +246,14 @@ def rule_refine_fresh(mod, rep):
 
 def _is_zero_store(s):
     return s.ops[0][0] == "f" and s.ops[0][1] == 0.0
+
+
+def rule_refine_budget(mod, rep):
+    rep.rule("R-BUDGET", "?gsrfs: the correction step is guarded by berr > eps, berr*2 <= lstres and count < ITMAX, and the iteration counter restarts at 0 for every "
+             "right-hand side (each column gets its own refinement budget)", floor=8)
+    for prec, f in fam(mod, "?gsrfs"):
+        rep.scope([f.name])
+        before = len(rep.obs)
+        _refine_bound(mod, rep, f, prec)
+        for o in rep.obs[before:]:
+            o.rule = "R-BUDGET"
